@@ -325,6 +325,7 @@ pub async fn run_case(backend: &str, seed: u64, rep: &mut Report, ops: &mut Vec<
     // a saved copy of the default folder's log for a later forced overwrite (C02: force merges)
     let mut saved: Option<(sos_core::events::patch::FolderDiff, BTreeMap<SecretId, String>, usize)> = None;
     let mut edits_since_save = 0usize;
+    let mut created_since_save = false;
     let mut birth: BTreeMap<SecretId, usize> = BTreeMap::new();
     let n_ops = rng.range(6, 22);
     for step in 0..n_ops {
@@ -416,8 +417,13 @@ pub async fn run_case(backend: &str, seed: u64, rep: &mut Report, ops: &mut Vec<
             }
             special_done = true;
         }
+        // a saved log is forced back soon after a few edits (so that the overwrite drops / restores indexed secrets)
+        let force_now = !two && folder == default && saved.is_some() && edits_since_save >= 1 && (kind < 14 || (created_since_save && rng.chance(1, 2)));
+        // with a saved log waiting, make sure something is created before it is forced back
+        let kind = if !two && folder == default && saved.is_some() && !created_since_save && !force_now && rng.chance(1, 2) { 20 } else { kind };
+        let save_now = !two && folder == default && saved.is_none() && !in_folder.is_empty() && kind < 14;
         if special_done {
-        } else if kind < 14 && !two && folder == default && ((saved.is_none() && !in_folder.is_empty()) || (saved.is_some() && edits_since_save >= 1)) {
+        } else if force_now || save_now {
             // save the log now, or force-merge the saved log (forced overwrite) if there is one
             use sos_core::events::EventLog;
             use sos_sync::{ForceMerge, MergeOutcome};
@@ -425,7 +431,7 @@ pub async fn run_case(backend: &str, seed: u64, rep: &mut Report, ops: &mut Vec<
                 None => {
                     let (diff, n) = { let log = a.folder_log(&default).await.map_err(|e| anyhow::anyhow!(e.to_string()))?; let l = log.read().await; (l.diff_unchecked().await.map_err(|e| anyhow::anyhow!(e.to_string()))?, l.tree().len()) };
                     saved = Some((diff, live.get(&default).cloned().unwrap_or_default(), n));
-                    cx.script.push(format!("save-log {n} events")); cx.rep.count("op:save-log"); edits_since_save = 0;
+                    cx.script.push(format!("save-log {n} events")); cx.rep.count("op:save-log"); edits_since_save = 0; created_since_save = false;
                 }
                 Some((diff, live_then, n)) => {
                     let mut outcome = MergeOutcome::default();
@@ -454,7 +460,7 @@ pub async fn run_case(backend: &str, seed: u64, rep: &mut Report, ops: &mut Vec<
             let d = content_digest(&m, &s).await;
             match a.create_secret(m, s, opts).await {
                 Ok(ch) => { live.entry(folder).or_default().insert(ch.id, d.clone()); cx.script.push(format!("create f={} -> {}", folder, ch.id));
-                    if folder == default { model_line = Some(format!("folder op create id={} v={}", tok.id(&ch.id), tok.val(&d))); } }
+                    if folder == default { created_since_save = true; model_line = Some(format!("folder op create id={} v={}", tok.id(&ch.id), tok.val(&d))); } }
                 Err(e) => { cx.script.push(format!("create f={} -> error {e}", folder)); cx.fail("c01-create-secret-error", &e.to_string()); }
             }
         } else if kind < 46 && !in_folder.is_empty() {
